@@ -16,6 +16,7 @@ NewProvider or the plugin registry, preload off/on on the same source) + `Pandor
 the executable Spec that judges the real providers to the model.
 -/
 import Pandora.Proofs.C14Spec
+import Pandora.Proofs.C14Hdr
 import Pandora.Bridge.C14
 
 namespace Pandora.Props.C14
@@ -364,6 +365,161 @@ theorem C14_head_stream_never_ends (k : Fmt) (file : List α) (chosen : α → B
     (fuel : Nat) : Head.runFuel k false file chosen ⟨limit, 0⟩ cancelAt fuel = none :=
   head_runFuel_never_ends k file chosen limit cancelAt hn (List.eq_nil_of_length_eq_zero hf) hc fuel
 
+
+/-! ## round 2: the delivered REQUESTS — headers of the source and of the `headers` option -/
+
+section Headers
+open Pandora.Model.C14H Pandora.Proofs.C14H
+
+/-- **preload is behaviour-preserving, headers included**: over a source that declares headers (uri / uripost:
+`[K: v]` lines anywhere between the entries; http/json, raw: per entry) and any `headers` option, the outcome with
+preload off and on is identical as a sequence of WHOLE decoded ammo (position, tag, the header map the request is
+built from), for every format, chosencases list, limit, passes and cancellation point. -/
+theorem C14_headers_equiv (k : Fmt) (s : Source) (cases : List String) (b : Bounds) (cancelAt : Option Nat)
+    (hc : cancelAt ≠ some 0) :
+    runH k false s cases b cancelAt = runH k true s cases b cancelAt :=
+  C14_equiv k (decode k s) (isChosenH cases) b cancelAt hc
+
+/-- … and every delivered ammo IS an entry of the source with the headers declared for it: it is `entryOf` of its
+position and tag (so its header map is `hdrLines` / `hdrJson` / the option + own lines of that position — on every
+pass, in both modes), and with chosencases set its tag is listed. -/
+theorem C14_headers_delivered (k : Fmt) (preload : Bool) (s : Source) (cases : List String) (b : Bounds)
+    (cancelAt : Option Nat) (hc : cancelAt ≠ some 0) (o : Outcome EntryH)
+    (h : runH k preload s cases b cancelAt = some o) :
+    ∀ e ∈ o.delivered, ∃ i t, s.tags[i]? = some t ∧ e = entryOf k s i t ∧ (cases ≠ [] → t ∈ cases) := by
+  intro e he
+  have key : e ∈ (decode k s).filter (isChosenH cases) := by
+    unfold runH at h
+    by_cases hf : ((decode k s).filter (isChosenH cases)).length = 0
+    · rw [C14_nomatch k preload _ _ b cancelAt hf hc] at h
+      cases h; simp at he
+    · cases hT : target b.limit b.passes ((decode k s).filter (isChosenH cases)).length cancelAt with
+      | none => simp [runWith, fuelOf, hf, hT] at h
+      | some T =>
+        rw [C14_run k preload _ _ b cancelAt T (by omega) hT] at h
+        cases h
+        exact mem_cycTake _ T e he
+  obtain ⟨hmem, hch⟩ := List.mem_filter.mp key
+  obtain ⟨i, t, ht, rfl⟩ := mem_decode k s e hmem
+  refine ⟨i, t, ht, rfl, ?_⟩
+  intro hcs
+  have : isChosen cases ⟨i, t⟩ = true := by
+    have h2 : (entryOf k s i t).entry = ⟨i, t⟩ := by cases k <;> rfl
+    simpa [isChosenH, h2] using hch
+  exact (isChosen_iff_mem cases hcs ⟨i, t⟩).mp this
+
+/-- **the uri / uripost decoder with its header accumulator refines the abstract decoder**: `Provider.Run` over
+`scanLines` (header lines Set on the accumulator, an entry gets a clone completed from the `headers` option, the
+accumulator is replaced by an empty map when Scan wraps to the next pass) has exactly the outcome of `Provider.Run`
+over the abstract stream decoder on the list of decoded entries — in both modes, for every source, filter, bound
+and cancellation point. -/
+theorem C14_lines_refine (s : Source) (preload : Bool) (chosen : EntryH → Bool) (b : Bounds)
+    (cancelAt : Option Nat) (hc : cancelAt ≠ some 0) :
+    runLines s preload chosen b cancelAt = runWith .uri preload (decodeLines s) chosen b cancelAt := by
+  by_cases hf : ((decodeLines s).filter chosen).length = 0
+  · rw [C14_nomatch .uri preload _ chosen b cancelAt hf hc]
+    unfold runLines fuelOf
+    rw [if_pos hf]
+    exact runLinesFuel_nomatch s preload chosen b cancelAt hf hc
+  · cases hT : target b.limit b.passes ((decodeLines s).filter chosen).length cancelAt with
+    | none => simp [runLines, runWith, fuelOf, hf, hT]
+    | some T =>
+      rw [C14_run .uri preload _ chosen b cancelAt T (by omega) hT]
+      unfold runLines fuelOf
+      rw [if_neg hf, hT]
+      exact runLinesFuel_spec s preload chosen b cancelAt T (by omega) (tgt_of_target _ _ _ _ _ (by omega) hT)
+
+/-- so with the accumulator modelled, preload on and off still deliver the same whole ammo and end the same way -/
+theorem C14_lines_equiv (s : Source) (chosen : EntryH → Bool) (b : Bounds) (cancelAt : Option Nat)
+    (hc : cancelAt ≠ some 0) :
+    runLines s false chosen b cancelAt = runLines s true chosen b cancelAt := by
+  rw [C14_lines_refine s false chosen b cancelAt hc, C14_lines_refine s true chosen b cancelAt hc]
+  exact C14_equiv .uri _ chosen b cancelAt hc
+
+/-- **what `Scan` hands to `a.Setup` is the decoded entry's header map, in every pass**: from the decoder state after
+`q` complete passes and `r` entries of the current pass, the next `Scan` returns entry `r` (resp. entry `0` after
+wrapping) and the header map it built is the one of `decodeLines` at that position — nothing of an earlier pass or of
+a later line is in it. -/
+theorem C14_lines_handout (s : Source) (passes : Nat) (hn : 0 < s.n) (q r : Nat) (d : LDec) (hR : RLine s q r d) :
+    (r < s.n → (passes = 0 ∨ q < passes) →
+      ∃ d', scanLines s ⟨0, passes⟩ d = (.ammo r, d') ∧ RLine s q (r + 1) d' ∧
+        ((decodeLines s)[r]?).map (·.hdr) = some d'.last) ∧
+    (r = s.n → (passes = 0 ∨ q + 1 < passes) →
+      ∃ d', scanLines s ⟨0, passes⟩ d = (.ammo 0, d') ∧ RLine s (q + 1) 1 d' ∧
+        ((decodeLines s)[0]?).map (·.hdr) = some d'.last) :=
+  lines_handout s passes hn q r d hR
+
+/-- The decoder WITHOUT the clone (`readLine` handing its accumulator itself to the ammo when there is no `headers`
+option): a preloaded provider — every entry decoded before the first is delivered — would deliver what the real one
+delivers. -/
+def C14_alias_statement : Prop :=
+  ∀ s : Source, s.ch = [] → Alias.decodePreloaded s = decodeLines s
+
+/-- true only for sources whose header lines all stand before the first entry … -/
+theorem C14_alias_partial (s : Source) (hch : s.ch = []) (htop : ∀ i, 1 ≤ i → s.block i = []) :
+    Alias.decodePreloaded s = decodeLines s := by
+  unfold Alias.decodePreloaded decodeLines decode
+  congr 1
+  funext i t
+  have h1 : accAt s (s.n + 1) = accAt s 1 := accAt_top_only s htop _ (by omega)
+  have h2 : accAt s (i + 1) = accAt s 1 := accAt_top_only s htop _ (by omega)
+  simp [entryOf, hdrLines, hch, mergeMissing_nil, h1, h2]
+
+/-- … and false in general: `/e0 a`, `[X-A: 1]`, `/e1 b` — without the clone the preloaded `/e0` carries `X-A`,
+which the source declares only for `/e1`. -/
+theorem C14_alias_counterexample : ¬ C14_alias_statement := by
+  intro h
+  have := h ⟨["a", "b"], [[], [("X-A", "1")], []], []⟩ rfl
+  have h2 := congrArg (fun l => l.map (fun e : EntryH => e.hdr.length)) this
+  revert h2
+  decide
+
+/-- **the header model is the source** (regenerated area "c14hdr", `Bridge/C14.lean`): every decoder hands every ammo
+a header map of its own (a clone defined once on the path to `Setup` — uri, uripost, http/json stream and array, raw);
+the map an entry of a uri / uripost source gets, the header-line branch, what `Scan` does with the accumulator when it
+wraps, the http/json map and one iteration of `EnrichRequestWithHeaders` are the model's definitions. -/
+theorem C14_headers_model_is_source :
+    (Gen.C14Hdr.uriEntryHeaderFresh = true ∧ Gen.C14Hdr.uripostEntryHeaderFresh = true ∧
+      Gen.C14Hdr.jsonScanFresh = true ∧ Gen.C14Hdr.jsonArrayFresh = true ∧ Gen.C14Hdr.rawCommonFresh = true) ∧
+    (∀ acc cfg, Gen.C14Hdr.uriEntryHeader acc cfg = mergeMissing acc cfg ∧
+      Gen.C14Hdr.uripostEntryHeader acc cfg = mergeMissing acc cfg) ∧
+    (∀ (acc : HMap) (kv : String × String), Gen.C14Hdr.uriHeaderLine acc kv.1 kv.2 = acc.setH kv ∧
+      Gen.C14Hdr.uripostHeaderLine acc kv.1 kv.2 = acc.setH kv) ∧
+    (Gen.C14Hdr.uriWrapAcc = some [] ∧ Gen.C14Hdr.uripostWrapAcc = some []) ∧
+    (∀ s i, hdrJson s i = Gen.C14Hdr.jsonEntryHeader (cfgMap s.ch) (s.block i)) ∧
+    (∀ k e, reqOf k e = e.hdr.foldl Gen.C14Hdr.enrichStep ((match k with | .uri | .uripost => "" | _ => entryHost), e.own)) :=
+  ⟨Bridge.C14.hdr_fresh_source, Bridge.C14.hdr_entry_source, Bridge.C14.hdr_line_source, Bridge.C14.hdr_wrap_source,
+   Bridge.C14.hdr_json_source, Bridge.C14.hdr_enrich_source⟩
+
+/-- the model's two sides of a cell are the same `Side` -/
+theorem C14_model_sides_agree (k : Fmt) (tags cases : List String) (b : Bounds) (cap : Nat) (hcap : 0 < cap) :
+    Drv.C14.modelSideOf k true tags cases b cap = Drv.C14.modelSideOf k false tags cases b cap := by
+  have hcne : (if cap = 0 then none else some cap) = some cap := by rw [if_neg (by omega)]
+  have hc0 : some cap ≠ some 0 := by simp; omega
+  unfold Drv.C14.modelSideOf
+  split
+  · rw [hcne]; unfold run; rw [C14_equiv k (mkFile tags) (isChosen cases) b (some cap) hc0]
+  · rfl
+
+/-- **Spec holds of the model, requests included**: for every cell shape (as in `C14_spec_holds`) over every source
+with header declarations, the executable Spec that judges the two real providers — now also: no side kills its
+process, every delivered request has the method and body of its entry, both sides carry the same Host / headers per
+entry, and these are the ones the source declares — accepts the observation the model predicts. -/
+theorem C14_spec_holds_hdr (k : Fmt) (src : Source) (cases : List String) (limit passes cap : Nat) (hcap : 0 < cap)
+    (hne : Spec.C14.inconclusive ⟨src.tags, cases, limit, passes, cap⟩ = false) :
+    Spec.C14.holdsH ⟨src.tags, cases, limit, passes, cap⟩ (Drv.C14.ehdrOf k src)
+      (Drv.C14.modelObsHOf k src cases ⟨limit, passes⟩ cap) = true := by
+  have hb := C14_spec_holds k src.tags cases limit passes cap hcap hne
+  have hs := C14_model_sides_agree k src.tags cases ⟨limit, passes⟩ cap hcap
+  have hf1 := modelSideOf_not_fatal k false src.tags cases ⟨limit, passes⟩ cap
+  unfold Drv.C14.modelObsOf at hb
+  rw [hs] at hb
+  unfold Spec.C14.holdsH Drv.C14.modelObsHOf
+  simp only [Spec.C14.fatalOk, Spec.C14.hdEquivOk, Spec.C14.hdOk, Drv.C14.modelObsOf, hs]
+  simp [hb, hf1]
+
+end Headers
+
 /-! ## non-vacuity: concrete cells, evaluated by the kernel -/
 
 -- the documented witness, repaired behaviour: limit 2 counts DELIVERED entries, both modes deliver [/b, /c]
@@ -415,5 +571,35 @@ example : Spec.C14.inconclusive ⟨["t1", "t2", "t3"], ["t2", "t3"], 5, 0, 3⟩ 
 -- hypotheses of C14_chosen / C14_spec_holds are satisfiable
 example : Spec.C14.expected 2 1 3 = some 2 ∧ target 2 1 3 none = some 2 := by decide
 example : cyclicPrefix [1, 2] 5 = [1, 2, 1, 2, 1] := by decide
+
+-- round 2: a uri source `[X-A: 1]`, `/e0 a`, `[x-a: 2]`, `/e1 b`, `[X-B: z]` with `headers: [X-C: c]`, two passes:
+-- the header redeclared between the entries reaches only /e1, the trailing one nobody, on both passes, in both modes
+example : (Model.C14H.runH .uri true ⟨["a", "b"], [[("X-A", "1")], [("x-a", "2")], [("X-B", "z")]], [("X-C", "c")]⟩ [] ⟨0, 2⟩ none).map
+      (fun o => o.delivered.map (fun e => (e.id, e.hdr)))
+    = some [(0, [("X-A", ["1"]), ("X-C", ["c"])]), (1, [("X-A", ["2"]), ("X-C", ["c"])]),
+            (0, [("X-A", ["1"]), ("X-C", ["c"])]), (1, [("X-A", ["2"]), ("X-C", ["c"])])] := by decide
+-- the same source through the decoder WITH its accumulator (`scanLines`), streaming, limit 3 (cut inside pass 2)
+example : (Model.C14H.runLines ⟨["a", "b"], [[("X-A", "1")], [("x-a", "2")], [("X-B", "z")]], [("X-C", "c")]⟩ false
+      (fun _ => true) ⟨3, 0⟩ none).map (fun o => o.delivered.map (fun e => (e.id, e.hdr)))
+    = some [(0, [("X-A", ["1"]), ("X-C", ["c"])]), (1, [("X-A", ["2"]), ("X-C", ["c"])]),
+            (0, [("X-A", ["1"]), ("X-C", ["c"])])] := by decide
+-- what the harness reads off the requests: Host from the source beats Host from the option; http/json ignores both
+example : Drv.C14.ehdrOf .uripost ⟨["a", "b"], [[("Host", "f.example")], [("x-a", "2")], []], [("Host", "cfg.example"), ("X-C", "c1"), ("x-c", "c2")]⟩
+      = ["f.example^X-C=c1+c2", "f.example^X-A=2&X-C=c1+c2"] ∧
+    Drv.C14.ehdrOf .jsonArray ⟨["a", "b"], [[("X-A", "1")], [], []], [("Host", "cfg.example"), ("x-a", "c")]⟩
+      = ["h.example^X-A=1", "h.example^X-A=c"] ∧
+    Drv.C14.ehdrOf .raw ⟨["a", "b"], [[("X-A", "1")], [], []], [("Host", "cfg.example"), ("x-a", "c")]⟩
+      = ["h.example^X-A=1", "h.example^X-A=c"] := by decide
+-- hypotheses of C14_lines_handout (initial state) and of C14_alias_partial (header lines only on top)
+example : Proofs.C14H.RLine ⟨["a", "b"], [[("X-A", "1")], [], []], []⟩ 0 0 Model.C14H.LDec.init ∧
+    0 < (⟨["a", "b"], [[("X-A", "1")], [], []], []⟩ : Model.C14H.Source).n :=
+  ⟨Proofs.C14H.RLine_init _, by decide⟩
+example : ∀ i, 1 ≤ i → (⟨["a", "b"], [[("X-A", "1")]], []⟩ : Model.C14H.Source).block i = [] := by
+  intro i hi
+  match i, hi with
+  | i + 1, _ => simp [Model.C14H.Source.block]
+-- the Spec's request part is not vacuous: a side whose /e0 carries the header declared for /e1 is rejected
+example : Spec.C14.renderHd ["^", "^X-A=1"] [0, 1, 0, 1] = "0:^|1:^X-A=1" ∧ Spec.C14.renderHd ["^", "^"] [1, 0] = "*:^" ∧
+    Spec.C14.renderHd ["^"] [] = "-" := by decide
 
 end Pandora.Props.C14
